@@ -21,7 +21,8 @@ Theorem C16_reading_is_total :
       | Ok rs => length rs = data_line_count lines           (* one record per line after the column line *)
       | Raise (MafFormat _ _) => m = Some Strict             (* only Strict raises the format exception *)
       | Raise ValueError => declares_sortable registry lines (* only under a declared coordinate-type order *)
-      | Raise _ => False                                     (* nothing else escapes *)
+      | Raise _ => False                                     (* nothing else escapes (validate no longer asserts: out-of-sync
+                                                                records are reported as errors, and parsed records are in sync) *)
       end.
 Proof.
   intros C W K sem registry key_of key_lt Hkey Hreg lines m override Hov.
